@@ -218,7 +218,7 @@ func wellFormed(ns, s string) (ok bool, exact bool) {
 }
 
 func Run(r *core.Run) {
-	r.Rule = "documents from a grammar (1-3 verification methods over Ed25519-2018 bytes and JsonWebKey2020 over Ed25519 / P-256 / P-384 / secp256k1, single and multiple relationships, 0-2 services, 0-2 also-known-as): " +
+	r.Rule = "every document size (endpoint grown one character at a time) up to the largest one Create accepts is created, read and resolved; documents from a grammar (1-3 verification methods over Ed25519-2018 bytes and JsonWebKey2020 over Ed25519 / P-256 / P-384 / secp256k1, single and multiple relationships, 0-2 services, 0-2 also-known-as): " +
 		"Create -> Read equivalence, id, metadata; determinism over every iteration order of every map ranged during Create (instrumented build, seam M); " +
 		"every single-character substitution (4 replacement characters), deletion and insertion of the created DIDs; re-encodings of the initial state; look-alike namespaces; " +
 		"distinct = distinct DID strings resolved; non-trivial = all"
@@ -318,6 +318,58 @@ func Run(r *core.Run) {
 			}
 			return nil
 		})
+	}
+
+	// ---- every document size up to the largest one Create accepts: whatever Create hands out resolves. The endpoint of one service
+	// grows a character at a time until Create refuses the document (size limits of the shipped configuration); two document shapes
+	{
+		sweeps := 0
+		for _, shape := range []docSpec{
+			{"size-sweep-one-key", []vmSpec{{"k1", jw, keys.New("Ed25519", 220), false, []did.VerificationRelationship{A}}}, 1, 0},
+			{"size-sweep-two-keys", []vmSpec{{"k1", jw, keys.New("P-256", 221), false, []did.VerificationRelationship{A, KA}}, {"k2", jw, keys.New("secp256k1", 221), false, []did.VerificationRelationship{AS}}}, 1, 1},
+		} {
+			shape := shape
+			largest, refusedAt := -1, -1
+			step := 1
+			if !r.Thorough() && shape.name == "size-sweep-two-keys" {
+				step = 7 // quick: the second shape in steps of 7 characters (the first one character by character)
+			}
+			for pad := 0; pad < 6000; pad += step {
+				d, err := build(shape)
+				if err != nil {
+					core.Engine("c17: build %s: %v", shape.name, err)
+				}
+				d.Service[0].ServiceEndpoint = endpoint.NewDIDCommV1Endpoint("https://svc.example/" + strings.Repeat("p", pad))
+				res, err := vdr.Create(d, opts...)
+				if err != nil {
+					refusedAt = pad
+					break
+				}
+				largest = pad
+				sweeps++
+				L := res.DIDDocument.ID
+				id := fmt.Sprintf("%s/padding=%d", shape.name, pad)
+				r.Case(id, func() *core.Fail {
+					det := M{"document": shape.name, "endpoint_padding": pad, "did_length": len(L)}
+					rd, err := vdr.Read(L)
+					if err != nil {
+						return &core.Fail{Key: shape.name + "/created-but-unresolvable", What: fmt.Sprintf("Create handed out a long-form DID of %d characters (endpoint padding %d) that does not resolve: %v", len(L), pad, err), Detail: det}
+					}
+					if rd.DIDDocument.ID != L || len(rd.DIDDocument.Service) != 1 {
+						return &core.Fail{Key: shape.name + "/resolved-differently", What: fmt.Sprintf("DID of %d characters resolves to id %s with %d services", len(L), rd.DIDDocument.ID, len(rd.DIDDocument.Service)), Detail: det}
+					}
+					if hr, err := handler.ResolveDocument(L); err != nil || hr.Document.ID() != L {
+						return &core.Fail{Key: shape.name + "/handler-resolution", What: fmt.Sprintf("handler resolution of a created DID of %d characters failed or gave another id: %v", len(L), err), Detail: det}
+					}
+					return nil
+				})
+			}
+			r.Extra["size_sweep_"+shape.name] = M{"largest_endpoint_padding_accepted_by_create": largest, "first_padding_refused": refusedAt, "step": step}
+			if refusedAt < 0 {
+				core.Engine("c17: size sweep never reached a document that Create refuses")
+			}
+		}
+		r.AddDistinct(int64(sweeps))
 	}
 
 	// ---- determinism: every map iteration order during Create
